@@ -78,7 +78,7 @@ const COLS: &[&str] = &["k", "n", "x", "s", "b", "o", "arr", "msg", "status", "u
 const NEWNAMES: &[&str] = &["r", "y", "c1", "c2", "out", "ts", "tot", "res", "a b", "x-y", "max_latency", "sum_total", "p50x"];
 
 fn gcol(r: &mut Rng) -> E {
-    let h = r.pick(COLS).to_string();
+    let h = if r.chance(5) { r.pick(&["max_latency", "sum_total", "p50x", "nullable", "trueish", "minute", "count_x"]).to_string() } else { r.pick(COLS).to_string() };
     let mut segs = vec![];
     match r.below(8) {
         0 => segs.push(Seg::Field("p".into())),
@@ -232,8 +232,61 @@ fn gquery(r: &mut Rng) -> Q {
 
 /* ---------- spelling ---------- */
 
+/// a spelling = a random stream + at most ONE enabled hazard kind (a spelling freedom that the
+/// property grants but that is known / suspected to be mishandled); `hz == 0`: none
+pub struct Sp {
+    r: Rng,
+    hz: u8,
+}
+
+impl Sp {
+    fn below(&mut self, n: usize) -> usize {
+        self.r.below(n)
+    }
+    fn chance(&mut self, p: usize) -> bool {
+        self.r.chance(p)
+    }
+    fn pick<'a, T>(&mut self, xs: &'a [T]) -> &'a T {
+        self.r.pick(xs)
+    }
+}
+
+const HZ_CLASS: &[&str] = &[
+    "",
+    "C20/long-sort-direction-cut-short",
+    "C20/blank-before-closing-paren",
+    "C20/blank-inside-filter-parens",
+    "C20/blank-before-comma-in-name-list",
+    "C20/identifier-prefix-collides-with-keyword",
+    "C20/by-header-depends-on-spelling",
+];
+
+const KW_PREFIXES: &[&str] = &["min", "max", "sum", "avg", "count", "true", "false", "null", "sort", "p5", "limit", "where", "total", "json", "fields", "parse", "split"];
+
+fn kw_prefixed(n: &str) -> bool {
+    KW_PREFIXES.iter().any(|p| n.starts_with(p))
+}
+
+/// blank before a closing parenthesis of `single_arg` / a parenthesised expression (hazard 2)
+fn bclose(s: &mut Sp) -> &'static str {
+    if s.hz == 2 {
+        b0(s)
+    } else {
+        ""
+    }
+}
+
+/// blank just inside filter parentheses (hazard 3)
+fn bfilt(s: &mut Sp) -> &'static str {
+    if s.hz == 3 {
+        b0(s)
+    } else {
+        ""
+    }
+}
+
 /// one or more blanks
-fn b1(s: &mut Rng) -> &'static str {
+fn b1(s: &mut Sp) -> &'static str {
     match s.below(10) {
         0 => "  ",
         1 => "\t",
@@ -245,7 +298,7 @@ fn b1(s: &mut Rng) -> &'static str {
 }
 
 /// zero or more blanks
-fn b0(s: &mut Rng) -> &'static str {
+fn b0(s: &mut Sp) -> &'static str {
     match s.below(8) {
         0 => " ",
         1 => "  ",
@@ -255,7 +308,7 @@ fn b0(s: &mut Rng) -> &'static str {
     }
 }
 
-fn squote(s: &mut Rng, text: &str) -> String {
+fn squote(s: &mut Sp, text: &str) -> String {
     let q = if s.chance(50) { '"' } else { '\'' };
     let mut o = String::new();
     o.push(q);
@@ -281,7 +334,7 @@ fn bare_ok(n: &str) -> bool {
 }
 
 /// `["name"]` or the bare name
-fn sident(s: &mut Rng, n: &str) -> String {
+fn sident(s: &mut Sp, n: &str) -> String {
     if bare_ok(n) && s.chance(70) {
         n.to_string()
     } else {
@@ -305,10 +358,10 @@ fn level(e: &E) -> u8 {
     }
 }
 
-fn sexpr(s: &mut Rng, e: &E, min: u8) -> String {
+fn sexpr(s: &mut Sp, e: &E, min: u8) -> String {
     let body = match e {
         E::Col(h, segs) => {
-            let mut t = sident(s, h);
+            let mut t = if kw_prefixed(h) && !(s.hz == 5 && s.chance(70)) { format!("[{}]", squote(s, h)) } else { sident(s, h) };
             for g in segs {
                 match g {
                     Seg::Field(f) => {
@@ -365,32 +418,32 @@ fn sexpr(s: &mut Rng, e: &E, min: u8) -> String {
         E::If(c, t, f) => format!("if({}{},{}{},{}{}{})", b0(s), sexpr(s, c, 0), b0(s), sexpr(s, t, 0), b0(s), sexpr(s, f, 0), b0(s)),
     };
     if level(e) < min {
-        format!("({}{}{})", b0(s), body, b0(s))
+        format!("({}{}{})", b0(s), body, bclose(s))
     } else if s.chance(8) {
         // redundant parentheses
-        format!("({}{}{})", b0(s), body, b0(s))
+        format!("({}{}{})", b0(s), body, bclose(s))
     } else {
         body
     }
 }
 
-fn sfilter_low(s: &mut Rng, f: &F) -> String {
+fn sfilter_low(s: &mut Sp, f: &F) -> String {
     let body = match f {
         F::Star => "*".to_string(),
         F::Word(w) => w.to_string(),
         F::Quoted(t) => squote(s, t),
         F::Not(x) => format!("NOT{}{}", b1(s), sfilter_low(s, x)),
-        F::And(l, r) => format!("({}{}{}AND{}{}{})", b0(s), sfilter_low(s, l), b1(s), b1(s), sfilter_low(s, r), b0(s)),
-        F::Or(l, r) => format!("({}{}{}OR{}{}{})", b0(s), sfilter_low(s, l), b1(s), b1(s), sfilter_low(s, r), b0(s)),
+        F::And(l, r) => format!("({}{}{}AND{}{}{})", bfilt(s), sfilter_low(s, l), b1(s), b1(s), sfilter_low(s, r), bfilt(s)),
+        F::Or(l, r) => format!("({}{}{}OR{}{}{})", bfilt(s), sfilter_low(s, l), b1(s), b1(s), sfilter_low(s, r), bfilt(s)),
     };
     if s.chance(8) {
-        format!("({})", body)
+        format!("({}{}{})", bfilt(s), body, bfilt(s))
     } else {
         body
     }
 }
 
-fn sfilter_top(s: &mut Rng, f: &F) -> String {
+fn sfilter_top(s: &mut Sp, f: &F) -> String {
     // a top-level AND / OR may be written without the enclosing parentheses
     match f {
         F::And(l, r) if s.chance(50) => format!("{}{}AND{}{}", sfilter_low(s, l), b1(s), b1(s), sfilter_low(s, r)),
@@ -399,10 +452,13 @@ fn sfilter_top(s: &mut Rng, f: &F) -> String {
     }
 }
 
-fn snames(s: &mut Rng, v: &[String]) -> String {
+fn snames(s: &mut Sp, v: &[String]) -> String {
     let mut o = String::new();
     for (i, n) in v.iter().enumerate() {
         if i > 0 {
+            if s.hz == 4 {
+                o.push_str(b0(s));
+            }
             o.push(',');
             o.push_str(b0(s));
         }
@@ -423,14 +479,14 @@ fn default_name(a: &Agg) -> String {
     }
 }
 
-fn sagg(s: &mut Rng, a: &Agg, name: &Option<String>) -> String {
+fn sagg(s: &mut Sp, a: &Agg, name: &Option<String>) -> String {
     let f = match a {
         Agg::Count(None) => "count".to_string(),
-        Agg::Count(Some(e)) => format!("count({}{}{})", b0(s), sexpr(s, e, 0), b0(s)),
+        Agg::Count(Some(e)) => format!("count({}{}{})", b0(s), sexpr(s, e, 0), bclose(s)),
         Agg::CountDistinct(e) => format!("count_distinct({}{}{})", b0(s), sexpr(s, e, 0), b0(s)),
-        Agg::Fn("avg", e) => format!("{}({}{}{})", if s.chance(50) { "avg" } else { "average" }, b0(s), sexpr(s, e, 0), b0(s)),
-        Agg::Fn(f, e) => format!("{}({}{}{})", f, b0(s), sexpr(s, e, 0), b0(s)),
-        Agg::Pct(n, e) => format!("{}{}({}{}{})", s.pick(&["p", "pct", "percentile"]), n, b0(s), sexpr(s, e, 0), b0(s)),
+        Agg::Fn("avg", e) => format!("{}({}{}{})", if s.chance(50) { "avg" } else { "average" }, b0(s), sexpr(s, e, 0), bclose(s)),
+        Agg::Fn(f, e) => format!("{}({}{}{})", f, b0(s), sexpr(s, e, 0), bclose(s)),
+        Agg::Pct(n, e) => format!("{}{}({}{}{})", s.pick(&["p", "pct", "percentile"]), n, b0(s), sexpr(s, e, 0), bclose(s)),
     };
     match name {
         Some(n) => format!("{}{}as{}{}", f, b1(s), b1(s), sident(s, n)),
@@ -444,7 +500,7 @@ fn sagg(s: &mut Rng, a: &Agg, name: &Option<String>) -> String {
     }
 }
 
-fn sop(s: &mut Rng, o: &Op) -> String {
+fn sop(s: &mut Sp, o: &Op) -> String {
     match o {
         Op::Json(None) => "json".into(),
         Op::Json(Some(e)) => format!("json{}from{}{}", b1(s), b1(s), sexpr(s, e, 0)),
@@ -487,7 +543,7 @@ fn sop(s: &mut Rng, o: &Op) -> String {
         }
         Op::Limit(Some(n)) => format!("limit{}{}", b1(s), n),
         Op::Split(e, sep, out) => {
-            let mut t = format!("split({}{}{})", b0(s), sexpr(s, e, 0), b0(s));
+            let mut t = format!("split({}{}{})", b0(s), sexpr(s, e, 0), bclose(s));
             match sep {
                 Some(x) => t.push_str(&format!("{}on{}{}", b1(s), b1(s), squote(s, x))),
                 None => {
@@ -502,7 +558,7 @@ fn sop(s: &mut Rng, o: &Op) -> String {
             t
         }
         Op::Timeslice(e, d, out) => {
-            let mut t = format!("timeslice({}{}{}){}{}", b0(s), sexpr(s, e, 0), b0(s), b1(s), sdur(d));
+            let mut t = format!("timeslice({}{}{}){}{}", b0(s), sexpr(s, e, 0), bclose(s), b1(s), sdur(d));
             match out {
                 Some(n) => t.push_str(&format!("{}as{}{}", b1(s), b1(s), sident(s, n))),
                 None => {
@@ -514,7 +570,7 @@ fn sop(s: &mut Rng, o: &Op) -> String {
             t
         }
         Op::Total(e, out) => {
-            let mut t = format!("total({}{}{})", b0(s), sexpr(s, e, 0), b0(s));
+            let mut t = format!("total({}{}{})", b0(s), sexpr(s, e, 0), bclose(s));
             match out {
                 Some(n) => t.push_str(&format!("{}as{}{}", b1(s), b1(s), sident(s, n))),
                 None => {
@@ -544,7 +600,13 @@ fn sop(s: &mut Rng, o: &Op) -> String {
                         t.push(',');
                         t.push_str(b0(s));
                     }
-                    t.push_str(&sexpr(s, k, 0));
+                    if s.hz == 6 {
+                        t.push_str(&sexpr(s, k, 0));
+                    } else {
+                        // the header of a key column is its source text: one fixed spelling
+                        let mut plain = Sp { r: Rng::new(7), hz: 0 };
+                        t.push_str(&sexpr(&mut plain, k, 0));
+                    }
                 }
             }
             t
@@ -562,14 +624,17 @@ fn sop(s: &mut Rng, o: &Op) -> String {
                     t.push_str(&sexpr(s, k, 0));
                 }
             }
+            let long = s.hz == 1;
+            let asc = if long && s.chance(70) { "ascending" } else { "asc" };
+            let desc = if long && s.chance(70) { "descending" } else { *s.pick(&["desc", "dsc"]) };
             match dir {
                 None => {
                     if s.chance(40) {
-                        t.push_str(&format!("{}{}", b1(s), s.pick(&["asc", "ascending"])))
+                        t.push_str(&format!("{}{}", b1(s), asc))
                     }
                 }
-                Some(false) => t.push_str(&format!("{}{}", b1(s), s.pick(&["asc", "ascending"]))),
-                Some(true) => t.push_str(&format!("{}{}", b1(s), s.pick(&["desc", "dsc", "descending"]))),
+                Some(false) => t.push_str(&format!("{}{}", b1(s), asc)),
+                Some(true) => t.push_str(&format!("{}{}", b1(s), desc)),
             }
             t
         }
@@ -577,7 +642,7 @@ fn sop(s: &mut Rng, o: &Op) -> String {
     }
 }
 
-fn squery(s: &mut Rng, q: &Q) -> String {
+fn squery(s: &mut Sp, q: &Q) -> String {
     let mut t = String::from(b0(s));
     for (i, f) in q.filters.iter().enumerate() {
         if i > 0 {
@@ -602,11 +667,24 @@ fn norm_op(o: &mut Operator) {
         Operator::RenderedAlias(ops) => ops.iter_mut().for_each(norm_op),
         Operator::Inline(p) => {
             p.range = 0..0;
-            if let InlineOperator::Limit { count } = &mut p.value {
-                match count {
+            match &mut p.value {
+                InlineOperator::Limit { count } => match count {
                     None => *count = Some(Positioned { range: 0..0, value: 10.0 }),
                     Some(c) => c.range = 0..0,
+                },
+                // `from` before or after `as`: one input column either way
+                InlineOperator::Parse { input_column, .. } => {
+                    if input_column.0.is_none() && input_column.1.is_some() {
+                        input_column.0 = input_column.1.take();
+                    }
                 }
+                // explicit `as _timeslice` equals the default output column
+                InlineOperator::Timeslice { output_column, .. } => {
+                    if output_column.is_none() {
+                        *output_column = Some("_timeslice".to_string());
+                    }
+                }
+                _ => {}
             }
         }
         Operator::MultiAggregate(m) => {
@@ -617,10 +695,40 @@ fn norm_op(o: &mut Operator) {
     }
 }
 
-/// AST tokens modulo the documented freedom (`limit` ≡ `limit 10`; key headers re-rendered)
+/// AND and OR are associative (and juxtaposition at top level is AND): nested chains are flattened
+fn norm_search(s: &Search) -> Search {
+    match s {
+        Search::And(v) => {
+            let mut out = vec![];
+            for x in v {
+                match norm_search(x) {
+                    Search::And(inner) => out.extend(inner),
+                    o => out.push(o),
+                }
+            }
+            Search::And(out)
+        }
+        Search::Or(v) => {
+            let mut out = vec![];
+            for x in v {
+                match norm_search(x) {
+                    Search::Or(inner) => out.extend(inner),
+                    o => out.push(o),
+                }
+            }
+            Search::Or(out)
+        }
+        Search::Not(x) => Search::Not(Box::new(norm_search(x))),
+        k => k.clone(),
+    }
+}
+
+/// AST tokens modulo the documented freedom (`limit` ≡ `limit 10`; `from` position; key headers
+/// re-rendered; top-level conjunctions flattened)
 fn norm_ast(q: &Query) -> String {
     let mut q = q.clone();
     q.operators.iter_mut().for_each(norm_op);
+    q.search = norm_search(&q.search);
     enc::query(&q)
 }
 
@@ -667,8 +775,10 @@ fn same_output(q1: &str, q2: &str, input: &[u8]) -> Result<(), (String, String)>
     ))
 }
 
-fn pair(ctx: &mut Ctx, rep: &mut Rep, family: &str, q1: &str, q2: &str, input: &[u8]) {
+/// `hz_class`: the class to report under when the second spelling exercises a known hazard ("" = none)
+fn pair(ctx: &mut Ctx, rep: &mut Rep, family: &str, q1: &str, q2: &str, input: &[u8], hz_class: &str) {
     let key = format!("{}\u{1}{}", q1, q2);
+    let cls = |generic: &'static str| -> String { if hz_class.is_empty() { generic.to_string() } else { hz_class.to_string() } };
     let info = serde_json::json!({"query": q1, "query2": q2, "query_hex": enc::hex(q1), "query2_hex": enc::hex(q2)});
     let c1 = parse::compare(ctx, q1);
     let c2 = parse::compare(ctx, q2);
@@ -682,7 +792,7 @@ fn pair(ctx: &mut Ctx, rep: &mut Rep, family: &str, q1: &str, q2: &str, input: &
     if r1.panicked.is_some() || r2.panicked.is_some() || r1.hung || r2.hung {
         let mut i = info.clone();
         i["panic"] = serde_json::json!(r1.panicked.clone().or(r2.panicked.clone()));
-        rep.fail(ctx, family, &key, "C20/spelling-panics", "one of the two spellings panics or hangs at compile time", i);
+        rep.fail(ctx, family, &key, &cls("C20/spelling-panics"), "one of the two spellings panics or hangs at compile time", i);
         return;
     }
     ctx.count(if r1.compiled { "accepted" } else { "rejected" });
@@ -691,8 +801,7 @@ fn pair(ctx: &mut Ctx, rep: &mut Rep, family: &str, q1: &str, q2: &str, input: &
         let mut i = info.clone();
         i["accepted"] = serde_json::json!(acc);
         i["rejected"] = serde_json::json!(rej);
-        let class = classify_reject(rej);
-        rep.fail(ctx, family, &key, class, "one spelling is accepted, the other rejected", i);
+        rep.fail(ctx, family, &key, &cls("C20/acceptance-depends-on-spelling"), "one spelling is accepted, the other rejected", i);
         return;
     }
     if !r1.compiled {
@@ -714,7 +823,7 @@ fn pair(ctx: &mut Ctx, rep: &mut Rep, family: &str, q1: &str, q2: &str, input: &
         } else {
             "C20/ast-depends-on-spelling"
         };
-        rep.fail(ctx, family, &key, class, "the two spellings parse to different queries", i);
+        rep.fail(ctx, family, &key, &cls(class), "the two spellings parse to different queries", i);
     } else if headers(a1) != headers(a2) {
         good = false;
         let mut i = info.clone();
@@ -729,21 +838,9 @@ fn pair(ctx: &mut Ctx, rep: &mut Rep, family: &str, q1: &str, q2: &str, input: &
                 let mut i = info.clone();
                 i["out1"] = serde_json::json!(o1);
                 i["out2"] = serde_json::json!(o2);
-                rep.fail(ctx, family, &key, "C20/output-depends-on-spelling", "the two spellings give different -o json output on the probe input", i);
+                rep.fail(ctx, family, &key, &cls("C20/output-depends-on-spelling"), "the two spellings give different -o json output on the probe input", i);
             }
         }
-    }
-}
-
-/// why was this spelling rejected? (stable classes for the known spelling hazards)
-fn classify_reject(q: &str) -> &'static str {
-    let toks = c04::lex(q).0;
-    if q.contains("descending") || q.contains("ascending") {
-        "C20/long-sort-direction-rejected"
-    } else if toks.iter().any(|t| ["T:max_latency", "T:sum_total", "T:p50x"].contains(&t.as_str())) {
-        "C20/identifier-prefix-collides-with-keyword"
-    } else {
-        "C20/acceptance-depends-on-spelling"
     }
 }
 
@@ -817,7 +914,9 @@ fn cli_checks(ctx: &mut Ctx, rep: &mut Rep) {
     let dir = format!("/verif/harness/target/scratch/c20-{}", std::process::id());
     let _ = std::fs::create_dir_all(&dir);
     let path = format!("{}/input.log", dir);
-    let _ = std::fs::write(&path, c04::PROBE);
+    // flat records only: nested objects print in hash order (C13's business)
+    let flat = "{\"k\":\"a\",\"n\":3,\"x\":1.5,\"s\":\"alpha GET\",\"status\":200}\n{\"k\":\"b\",\"n\":-1,\"s\":\"error\",\"status\":500}\nk=a n=4 status=200 msg=\"hello error\"\nplain GET line\n{\"k\":\"a\",\"n\":12,\"status\":404}\n";
+    let _ = std::fs::write(&path, flat);
     let queries = ["* | json", "* | json | count by k", "GET | json | fields k, n", "* | logfmt | where status == 200", "error", "* | json | limit 2"];
     let formats = ["{k} => {n}", "{status}", "k={k:>5} n={n:.2}", "plain text", "{missing}", "{k}{k}"];
     for (i, q) in queries.iter().enumerate() {
@@ -894,63 +993,63 @@ fn sorted_lines(b: &[u8]) -> Vec<String> {
 
 /* ---------- fixed spelling pairs (every synonym family once, deterministic) ---------- */
 
-pub const PAIRS: &[(&str, &str)] = &[
-    ("* | json | avg(x)", "* | json | average(x)"),
-    ("* | json | avg(x) by k", "* | json | average(x) as _average by k"),
-    ("* | json | p50(n)", "* | json | pct50(n)"),
-    ("* | json | p50(n)", "* | json | percentile50(n)"),
-    ("* | json | p50(n)", "* | json | p50(n) as p50"),
-    ("* | json | where n != 3", "* | json | where n <> 3"),
-    ("* | json | where n > 1 and x > 1", "* | json | where n > 1 && x > 1"),
-    ("* | json | where n > 1 and x > 1", "* | json | where n>1&&x>1"),
-    ("* | json | where n > 5 or k == 'a'", "* | json | where n > 5 || k == \"a\""),
-    ("* | json | count by k | sort by k", "* | json | count by k | sort by k asc"),
-    ("* | json | count by k | sort by k", "* | json | count by k | sort by k ascending"),
-    ("* | json | count by k | sort by k desc", "* | json | count by k | sort by k dsc"),
-    ("* | json | count by k | sort by k desc", "* | json | count by k | sort by k descending"),
-    ("* | json | count by k | sort by k desc | limit 1", "* | json | count by k | sort by k descending | limit 1"),
-    ("* | json | count by k | sort by k asc | limit 1", "* | json | count by k | sort by k ascending | limit 1"),
-    ("* | json | fields k, n", "* | json | fields + k, n"),
-    ("* | json | fields k, n", "* | json | fields only k, n"),
-    ("* | json | fields k, n", "* | json | fields include k, n"),
-    ("* | json | fields k, n", "* | json | fields +k,n"),
-    ("* | json | fields - k, n", "* | json | fields except k, n"),
-    ("* | json | fields - k, n", "* | json | fields drop k, n"),
-    ("* | json | fields k, n", "* | json | fields k , n"),
-    ("* | json | fields k, n", "* | json | fields [\"k\"], ['n']"),
-    ("* | json | n + 1 as m", "* | json | [\"n\"] + 1 as [\"m\"]"),
-    ("* | json | count by k", "* | json | count by [\"k\"]"),
-    ("* | json | count by o.p", "* | json | count by o.[\"p\"]"),
-    ("* | json | count by n > 5", "* | json | count by n>5"),
-    ("* | json | count by n > 5", "* | json | count by (n > 5)"),
-    ("* | json | count", "* | json | count as _count"),
-    ("* | json | sum(n)", "* | json | sum(n) as _sum"),
-    ("* | json | count_distinct(k)", "* | json | count_distinct(k) as _countDistinct"),
-    ("* | json | total(n)", "* | json | total(n) as _total"),
-    ("* | json | limit", "* | json | limit 10"),
-    ("* | json | count by k | limit", "* | json | count by k | limit 10"),
-    ("* | parse \"user=* took *ms\" from msg as u, ms", "* | parse \"user=* took *ms\" as u, ms from msg"),
-    ("* | json | parse \"user=* took *ms\" from msg as u, ms nodrop", "* | json | parse 'user=* took *ms' as u,ms from msg nodrop"),
-    ("* | json | where s == \"it's\"", "* | json | where s == 'it\\'s'"),
-    ("* | json | where s == \"say \\\"hi\\\"\"", "* | json | where s == 'say \"hi\"'"),
-    ("\"GET\" | json", "'GET' | json"),
-    ("* | json | where (n > 1)", "* | json | where n > 1"),
-    ("* | json | where ((n) > (1))", "* | json | where n > 1"),
-    ("* | json | (n + 1) * 2 as m", "* | json | ((n + 1)) * (2) as m"),
-    ("* | json | where n > 1", "*|json|where n>1"),
-    ("* | json | where n > 1", "  *\n|\tjson\n|  where\n n\t>  1  "),
-    ("* | json | count, sum(n) by k", "* | json | count ,sum(n) by k"),
-    ("* | json | count, sum(n) by k, b", "* | json | count,sum( n )\nby k ,b"),
-    ("* | json | if(n > 1, \"a\", \"b\") as r", "* | json | if( n > 1 ,'a' , 'b' ) as r"),
-    ("GET AND alpha", "(GET AND alpha)"),
-    ("GET AND alpha AND error", "(GET AND alpha) AND error"),
-    ("GET OR alpha OR error", "(GET OR alpha) OR error"),
-    ("GET alpha", "GET AND alpha"),
-    ("NOT (GET OR alpha)", "NOT ( GET  OR  alpha )"),
-    ("* | json | max_latency as y", "* | json | [\"max_latency\"] as y"),
-    ("* | json | timeslice(parseDate(t)) 1h", "* | json | timeslice(parseDate(t)) 60m"),
-    ("* | json | timeslice(parseDate(t)) 1h", "* | json | timeslice(parseDate(t)) 1h as _timeslice"),
-    ("* | json | split(s) on \" \"", "* | json | split(s) on ' ' as s"),
+pub const PAIRS: &[(&str, &str, &str)] = &[
+    ("* | json | avg(x)", "* | json | average(x)", ""),
+    ("* | json | avg(x) by k", "* | json | average(x) as _average by k", ""),
+    ("* | json | p50(n)", "* | json | pct50(n)", ""),
+    ("* | json | p50(n)", "* | json | percentile50(n)", ""),
+    ("* | json | p50(n)", "* | json | p50(n) as p50", ""),
+    ("* | json | where n != 3", "* | json | where n <> 3", ""),
+    ("* | json | where n > 1 and x > 1", "* | json | where n > 1 && x > 1", ""),
+    ("* | json | where n > 1 and x > 1", "* | json | where n>1&&x>1", ""),
+    ("* | json | where n > 5 or k == 'a'", "* | json | where n > 5 || k == \"a\"", ""),
+    ("* | json | count by k | sort by k", "* | json | count by k | sort by k asc", ""),
+    ("* | json | count by k | sort by k", "* | json | count by k | sort by k ascending", "C20/long-sort-direction-cut-short"),
+    ("* | json | count by k | sort by k desc", "* | json | count by k | sort by k dsc", ""),
+    ("* | json | count by k | sort by k desc", "* | json | count by k | sort by k descending", "C20/long-sort-direction-cut-short"),
+    ("* | json | count by k | sort by k desc | limit 1", "* | json | count by k | sort by k descending | limit 1", "C20/long-sort-direction-cut-short"),
+    ("* | json | count by k | sort by k asc | limit 1", "* | json | count by k | sort by k ascending | limit 1", "C20/long-sort-direction-cut-short"),
+    ("* | json | fields k, n", "* | json | fields + k, n", ""),
+    ("* | json | fields k, n", "* | json | fields only k, n", ""),
+    ("* | json | fields k, n", "* | json | fields include k, n", ""),
+    ("* | json | fields k, n", "* | json | fields +k,n", ""),
+    ("* | json | fields - k, n", "* | json | fields except k, n", ""),
+    ("* | json | fields - k, n", "* | json | fields drop k, n", ""),
+    ("* | json | fields k, n", "* | json | fields k , n", "C20/blank-before-comma-in-name-list"),
+    ("* | json | fields k, n", "* | json | fields [\"k\"], ['n']", ""),
+    ("* | json | n + 1 as m", "* | json | [\"n\"] + 1 as [\"m\"]", ""),
+    ("* | json | count by k", "* | json | count by [\"k\"]", "C20/by-header-depends-on-spelling"),
+    ("* | json | count by o.p", "* | json | count by o.[\"p\"]", "C20/by-header-depends-on-spelling"),
+    ("* | json | count by n > 5", "* | json | count by n>5", "C20/by-header-depends-on-spelling"),
+    ("* | json | count by n > 5", "* | json | count by (n > 5)", "C20/by-header-depends-on-spelling"),
+    ("* | json | count", "* | json | count as _count", ""),
+    ("* | json | sum(n)", "* | json | sum(n) as _sum", ""),
+    ("* | json | count_distinct(k)", "* | json | count_distinct(k) as _countDistinct", ""),
+    ("* | json | total(n)", "* | json | total(n) as _total", ""),
+    ("* | json | limit", "* | json | limit 10", ""),
+    ("* | json | count by k | limit", "* | json | count by k | limit 10", ""),
+    ("* | parse \"user=* took *ms\" from msg as u, ms", "* | parse \"user=* took *ms\" as u, ms from msg", ""),
+    ("* | json | parse \"user=* took *ms\" from msg as u, ms nodrop", "* | json | parse 'user=* took *ms' as u,ms from msg nodrop", ""),
+    ("* | json | where s == \"it's\"", "* | json | where s == 'it\\'s'", ""),
+    ("* | json | where s == \"say \\\"hi\\\"\"", "* | json | where s == 'say \"hi\"'", ""),
+    ("\"GET\" | json", "'GET' | json", ""),
+    ("* | json | where (n > 1)", "* | json | where n > 1", ""),
+    ("* | json | where ((n) > (1))", "* | json | where n > 1", ""),
+    ("* | json | (n + 1) * 2 as m", "* | json | ((n + 1)) * (2) as m", ""),
+    ("* | json | where n > 1", "*|json|where n>1", ""),
+    ("* | json | where n > 1", "  *\n|\tjson\n|  where\n n\t>  1  ", ""),
+    ("* | json | count, sum(n) by k", "* | json | count ,sum(n) by k", ""),
+    ("* | json | count, sum(n) by k, b", "* | json | count,sum( n )\nby k ,b", "C20/blank-before-closing-paren"),
+    ("* | json | if(n > 1, \"a\", \"b\") as r", "* | json | if( n > 1 ,'a' , 'b' ) as r", ""),
+    ("GET AND alpha", "(GET AND alpha)", ""),
+    ("GET AND alpha AND error", "(GET AND alpha) AND error", "C20/filter-chain-takes-operator-as-keyword"),
+    ("GET OR alpha OR error", "(GET OR alpha) OR error", "C20/filter-chain-takes-operator-as-keyword"),
+    ("GET alpha", "GET AND alpha", ""),
+    ("NOT (GET OR alpha)", "NOT ( GET  OR  alpha )", "C20/blank-inside-filter-parens"),
+    ("* | json | max_latency as y", "* | json | [\"max_latency\"] as y", "C20/identifier-prefix-collides-with-keyword"),
+    ("* | json | timeslice(parseDate(t)) 1h", "* | json | timeslice(parseDate(t)) 60m", ""),
+    ("* | json | timeslice(parseDate(t)) 1h", "* | json | timeslice(parseDate(t)) 1h as _timeslice", ""),
+    ("* | json | split(s) on \" \"", "* | json | split(s) on ' ' as s", ""),
 ];
 
 pub fn check(ctx: &mut Ctx) {
@@ -962,17 +1061,17 @@ pub fn check(ctx: &mut Ctx) {
                 if let (Some(a), Some(b)) = (i["query_hex"].as_str(), i["query2_hex"].as_str()) {
                     let q1 = String::from_utf8_lossy(&enc::unhex(a)).into_owned();
                     let q2 = String::from_utf8_lossy(&enc::unhex(b)).into_owned();
-                    pair(ctx, &mut rep, "replay", &q1, &q2, c04::PROBE.as_bytes());
+                    pair(ctx, &mut rep, "replay", &q1, &q2, c04::PROBE.as_bytes(), j["case"]["info"]["class"].as_str().unwrap_or(""));
                 } else if let (Some(a), Some(b)) = (i["query"].as_str(), i["query2"].as_str()) {
-                    pair(ctx, &mut rep, "replay", a, b, c04::PROBE.as_bytes());
+                    pair(ctx, &mut rep, "replay", a, b, c04::PROBE.as_bytes(), j["case"]["info"]["class"].as_str().unwrap_or(""));
                 }
             }
         }
         return;
     }
-    for (i, (a, b)) in PAIRS.iter().enumerate() {
+    for (i, (a, b, class)) in PAIRS.iter().enumerate() {
         if i % ctx.nshards == ctx.shard {
-            pair(ctx, &mut rep, "fixed-pair", a, b, c04::PROBE.as_bytes());
+            pair(ctx, &mut rep, "fixed-pair", a, b, c04::PROBE.as_bytes(), class);
         }
     }
     if ctx.shard == 0 {
@@ -985,13 +1084,16 @@ pub fn check(ctx: &mut Ctx) {
     for _ in 0..n {
         let mut r = ctx.rng.fork();
         let q = gquery(&mut r);
-        let mut s1 = r.fork();
-        let mut s2 = r.fork();
+        // first spelling: hazard-free; second: hazard-free or with exactly one hazard kind enabled
+        let mut s1 = Sp { r: r.fork(), hz: 0 };
+        let hz = if r.chance(55) { 0 } else { 1 + r.below(6) as u8 };
+        let mut s2 = Sp { r: r.fork(), hz };
         let q1 = squery(&mut s1, &q);
         let q2 = squery(&mut s2, &q);
         if q1.len() > 400 || q2.len() > 400 {
             continue;
         }
-        pair(ctx, &mut rep, "generated", &q1, &q2, c04::PROBE.as_bytes());
+        ctx.count(&format!("hazard:{}", if hz == 0 { "none" } else { HZ_CLASS[hz as usize] }));
+        pair(ctx, &mut rep, if hz == 0 { "generated" } else { "generated-hazard" }, &q1, &q2, c04::PROBE.as_bytes(), HZ_CLASS[hz as usize]);
     }
 }
